@@ -30,12 +30,12 @@ CFG = {
                   "capability record, and the three method constants mean what the model assumes; image_objects_only_from_constructors / "
                   "image_buffers_written_by_own_type / image_escape_literals_exact / image_writers_are_methods_of_the_constructed_types: kitty / sixel image "
                   "objects are created only by the two constructors, which the library calls only from NewImage, and their buffers are filled only by their own "
-                  "Resize; new_image_interpreted / new_image_class_gated: NewImage (interpreted from the regenerated switch) over the model of graphicsProtocol "
+                  "Resize; detected_interpreted / protocol_steps_complete_and_order_free / new_image_interpreted / new_image_class_gated(_source): graphicsProtocol (interpreted from every regenerated guarded assignment of the field in New / applyQuirks) and NewImage (interpreted from the regenerated switch) "
                   "hands out a kitty / sixel image only if that protocol was advertised and the pixel size is known, else the half-block fallback.",
     "level_note": "Validated by correspondence only: the start-up LTS = the real New() on ~700 (quick) / 12000 reply streams and on capability "
                   "subsets (all 2^16 in thorough); API writers = sequences.go templates on the real calls; image data writers: the bytes real NewImage / Resize / Draw+Render / Destroy write in 288 (quick) / 4800 scenarios "
                   "are lexed and judged at run time by an oracle written from the protocols (kitty APC / sixel DCS only when advertised, none at all with neither; replayable: the op line "
-                  "determines the scenario); the model of graphicsProtocol (detected) is a hand transcription of four statements of New, CellSize and window sizes of the image scenarios "
+                  "determines the scenario); how reportWinsize learns the pixel size is varied by the harness, not modelled; CellSize and window sizes of the image scenarios "
                   "are taken from the implementation (resizeImage's float arithmetic is C20's); the kitty chunk order is shown, not judged. Modelled not verified: float64 "
                   "rounding (validated on all 2^24 colours in thorough); uniseg/runewidth; real time of the two start-up time-outs (labels); "
                   "caps_exact assumes the loop ended by DA1 with nothing dropped (startup_completes / caps_exact_attained prove that every stream "
